@@ -28,6 +28,8 @@ def _programs(ck, tier, seed):
             progs.append(graphs.productive_cyclic_program(rng, rng.choice([5, 7, mx])))
         elif i % 5 == 3:
             progs.append(graphs.grammar_like_program(rng, rng.choice([1, 2, 3])))
+        elif i % 5 == 2:
+            progs.append(graphs.nested_program(rng, rng.choice([2, 3, 4])))
         else:
             progs.append(graphs.random_program(rng, rng.choice([3, 5, mx]), allow_bad=True))
     if tier == "thorough":
